@@ -253,6 +253,15 @@ pub fn input_vectors(p: &Program, f: &Function, small: bool, max_params: usize, 
     if non_implicit_rets > 1 {
         return None;
     }
+    // the runner's entry code also requires every builtin a function takes to come back among its return values
+    // (a function that boxes or otherwise swallows a builtin is valid Sierra the runner cannot wrap: it asserts)
+    let name_of = |t: &cairo_lang_sierra::ids::ConcreteTypeId| t.debug_name.as_ref().map(|s| s.to_string()).unwrap_or_default();
+    for t in &f.signature.param_types {
+        let n = name_of(t);
+        if IMPLICITS.contains(&n.as_str()) && n != "BuiltinCosts" && !f.signature.ret_types.iter().any(|r| name_of(r) == n) {
+            return None;
+        }
+    }
     let mut small = small;
     loop {
         let doms: Vec<Vec<Vec<Arg>>> = user.iter().map(|t| type_args(p, t, small, 0)).collect::<Option<_>>()?;
